@@ -87,8 +87,9 @@ def rnd_val(rng, t):
     if t in "ht":   return rng.choice([0, 1, -1, 2**63 - 1, rng.randint(-10**12, 10**12)])
     if t == "d":    return rng.choice([0.0, 2.5, -1e300, float(rng.randint(-5, 5))])
     if t == "m":    return [rng.randint(0, 255) for _ in range(4)]
-    if t in "sS":   return bytes(rng.choice(b"abcxyz019_") for _ in range(rng.choice([0, 1, 2, 3, 4, 5, 7, 8, 17])))
-    if t == "b":    return bytes(rng.randint(0, 255) for _ in range(rng.choice([0, 1, 3, 4, 5, 8, 13])))
+    # now and then an argument that alone is larger than RtData's 8192-byte reply buffer
+    if t in "sS":   return bytes(rng.choice(b"abcxyz019_") for _ in range(rng.choice([0, 1, 2, 3, 4, 5, 7, 8, 17] * 6 + [9000])))
+    if t == "b":    return bytes(rng.randint(0, 255) for _ in range(rng.choice([0, 1, 3, 4, 5, 8, 13] * 8 + [9000])))
     return None
 
 def rnd_args(rng, tags):
@@ -340,7 +341,7 @@ def gen_link(rng, dist):
             if k < 0.5:
                 tags = "".join(rng.choice("ifsTb") for _ in range(rng.randint(0, 3)))
                 m = rnd_msg(rng, b"/" + bytes(rng.choice(b"abc") for _ in range(rng.randint(1, 9))), tags)
-                if len(m) > maxmsg:
+                if len(m) > maxmsg:       # (raw_write's precondition: the message fits MaxMsg)
                     m = enc_msg(b"/m", "", [])
                 op = rng.choice("wA") + m.hex(); L = len(m)
             else:
@@ -381,7 +382,7 @@ def gen_link(rng, dist):
     return "link g=7 %d %d %s %s" % (maxmsg, nmsg, ",".join(ops), ",".join(res) or "-")
 
 def gen(rng, tier, dist):
-    scale = 1 if tier == "quick" else 100
+    scale = 1 if tier == "quick" else 250
     out = ["cbs g=5"]
     for _ in range(700 * scale):  out.append(gen_static(rng, dist))
     for _ in range(900 * scale):  out.append(gen_generated(rng, dist))
